@@ -69,7 +69,9 @@ def matches(c, data, stored, heap, tol):
 OV = TOpt(TVal)
 HEAPS = z3.ArraySort(z3.IntSort(), ValS)
 CONTENT = z3.ArraySort(TStr.sort(), OV.sort())
-contf = z3.Function("content_of", z3.ArraySort(TStr.sort(), z3.BoolSort()), z3.ArraySort(TStr.sort(), z3.IntSort()), HEAPS, CONTENT)
+def contf(m, v, h):
+    k = z3.Const("k!lam", TStr.sort())
+    return z3.Lambda([k], z3.If(m[k], OV.dt.some(h[v[k]]), OV.dt.none))
 hashf = z3.Function("hash_data", CONTENT, z3.IntSort())  # uninterpreted: collisions allowed
 wtol = z3.Function("within_tol_c", CONTENT, CONTENT, z3.RealSort(), z3.BoolSort())
 
@@ -80,7 +82,7 @@ def cont_axiom():
     v = z3.Const("v!ct", z3.ArraySort(TStr.sort(), z3.IntSort()))
     h = z3.Const("h!ct", HEAPS)
     k = kq("k!ct")
-    return z3.ForAll([m, v, h, k], contf(m, v, h)[k] == z3.If(m[k], OV.dt.some(h[v[k]]), OV.dt.none), patterns=[contf(m, v, h)[k]])
+    return z3.BoolVal(True)
 
 
 def cont(d, heap):
